@@ -115,8 +115,33 @@ def gen_fluid():
     return m
 
 
-GENERATORS = {"fluid": gen_fluid, "water": gen_water, "gas": gen_gas, "oil": gen_oil, "reservoir": gen_reservoir}
-DEPS = {"water": [], "gas": [], "oil": ["gas"], "reservoir": [], "fluid": ["gas", "oil", "water"]}
+PVT_REC = ("rec", [("rho_o0", "R"), ("rho_g0", "R"), ("rho_w0", "R")] +
+           [(k, "fun") for k in ("Rv", "Rs", "mu_o", "mu_g", "mu_w", "Bo", "Bg", "Bw")])
+KR_REC = ("rec", [(k, "fun") for k in ("kro", "krg", "krw")])
+RELPERM = ("rec", [(k, "R") for k in ("n_o", "n_w", "n_g", "S_or", "S_wc", "S_gc", "k_ro_max", "k_rw_max", "k_rg_max")])
+
+
+def gen_flowprops():
+    import ast
+    m = P.Module(os.path.join(SRC, "flow", "flowproperties.py"), "Gen_flowprops")
+    P.Tr(m, m.funcs["lambda_combined_func"], kinds={"pvt": PVT_REC, "kr": KR_REC}).translate()
+    P.Tr(m, m.funcs["compressibility_combined_func"], kinds={"pvt": PVT_REC}).translate()
+    P.Tr(m, m.funcs["alpha_multiphase"], kinds={"pvt": PVT_REC, "kr": KR_REC}).translate()
+    P.Tr(m, m.funcs["pseudopressure_threephase"], kinds={"pressure": "list", "So": "list", "pvt": PVT_REC, "kr": KR_REC}).translate()
+    # Brooks-Corey: one saturation record; translated up to the three kr expressions (the
+    # structured-array packing and the final `< 0` clamp are modelled by hand in the property file)
+    sat = P.Rows({"So": P.Sc("So"), "Sw": P.Sc("Sw"), "Sg": P.Sc("Sg")})
+
+    def is_pack(st):
+        return isinstance(st, ast.Assign) and isinstance(st.targets[0], ast.Name) and st.targets[0].id == "k_rel"
+    P.Tr(m, m.funcs["relative_permeabilities"], emit_name="relative_permeabilities_row", option=True,
+         kinds={"params": RELPERM}, preset={"saturations": (sat, [("So", "R"), ("Sw", "R"), ("Sg", "R")])},
+         cut_before=is_pack, ret_names=["kro", "krw", "krg"], ret_annot="option (R * R * R)").translate()
+    return m
+
+
+GENERATORS = {"flowprops": gen_flowprops, "fluid": gen_fluid, "water": gen_water, "gas": gen_gas, "oil": gen_oil, "reservoir": gen_reservoir}
+DEPS = {"water": [], "gas": [], "oil": ["gas"], "reservoir": [], "fluid": ["gas", "oil", "water"], "flowprops": []}
 
 
 def module(name):
